@@ -43,7 +43,7 @@ type MsgSpec struct {
 	From  string   // "" = no From address (GetSender fails)
 	Rcpts []string // distributed over To, Cc, Bcc by position (i mod 3)
 	Enc   byte     // 'q' quoted-printable, 'b' base64, 'n' NoEncoding (8bit; needs 8BITMIME)
-	Kind  byte     // 's' string body, 'w' body writer failing after K bytes, 'a' body + attachment whose reader fails after K bytes, 'A' body + attachment (ok)
+	Kind  byte     // 'N' a nil entry of the batch (no message at all), 's' string body, 'w' body writer failing after K bytes, 'a' body + attachment whose reader fails after K bytes, 'A' body + attachment (ok)
 	K     int
 	Body  []byte
 	// ErrText is the Error() text of the failing producer (kinds 'w' and 'a'); HasErrText tells whether it was
@@ -324,6 +324,9 @@ func Build(i int, s MsgSpec) *mail.Msg { return BuildHooked(i, s, nil) }
 // BuildHooked: like Build; hook (if not nil) is called from inside the body producer - i.e. while the message is
 // being written into the DATA stream - after the first part of the body was written.
 func BuildHooked(i int, s MsgSpec, hook func()) *mail.Msg {
+	if s.Kind == 'N' {
+		return nil // a nil entry of the batch: SendWithSMTPClient skips it
+	}
 	enc := mail.EncodingQP
 	switch s.Enc {
 	case 'b':
@@ -400,6 +403,9 @@ func BuildHooked(i int, s MsgSpec, hook func()) *mail.Msg {
 
 // Render is the independent rendering of a message specification (fresh Msg, plain buffer).
 func Render(i int, s MsgSpec) (content []byte, err error) {
+	if s.Kind == 'N' {
+		return nil, nil
+	}
 	var buf bytes.Buffer
 	_, err = Build(i, s).WriteTo(&buf)
 	return buf.Bytes(), err
@@ -610,7 +616,7 @@ func guard(res *Result, f func()) {
 			res.PanicWhere = "unknown"
 			st := string(debug.Stack())
 			best := -1
-			for _, fn := range []string{"isTempError", "errorCode", "enhancedStatusCode", "sendSingleMsg", "WriteTo"} {
+			for _, fn := range []string{"isTempError", "errorCode", "enhancedStatusCode", "sendSingleMsg", "WriteTo", "SendWithSMTPClient"} {
 				if i := strings.Index(st, "go-mail."+fn+"("); i >= 0 && (best < 0 || i < best) {
 					best, res.PanicWhere = i, fn
 				} else if i := strings.Index(st, ")."+fn+"("); i >= 0 && (best < 0 || i < best) {
@@ -666,6 +672,10 @@ func collect(res *Result, sess *session, msgs []*mail.Msg) {
 	}
 	res.DialOK = res.RetKind != "dial"
 	for _, m := range msgs {
+		if m == nil {
+			res.Msgs = append(res.Msgs, MsgResult{})
+			continue
+		}
 		mr := MsgResult{Delivered: m.IsDelivered(), HasErr: m.HasSendError()}
 		var se *mail.SendError
 		if m.HasSendError() && errors.As(m.SendError(), &se) {
